@@ -621,3 +621,177 @@ def memo_discipline(ctx, rule: str, consequence: str, floor: int = 2, classes: t
         raise AnalysisError(f"memoisation discipline: only {n} memoised members found (expected >= {floor})")
     if n == 0:
         ctx.ob(rule, f"no memoised member in {classes or 'the package'} (nothing can go stale)", True, where="package", construct="memoised members")
+
+
+# writes to fields of a SolverOptions object inside the library (confirmed by reading)
+OPTION_WRITES_OK = {
+    ("tdgl.solver.options:SolverOptions.validate", "sparse_solver"): "a solver given by name is replaced by the enum member of the same name",
+}
+
+
+def options_readonly(ctx, rule: str, consequence: str):
+    """The library never changes the user's SolverOptions: stores to a field of an options object (`self` inside SolverOptions,
+    or a value typed / named as options) are confined to the confirmed table."""
+    from .dataflow import expanded_text
+    repo = ctx.repo
+    opt = repo.cls("tdgl.solver.options", "SolverOptions")
+    fields = {s_.target.id for s_ in opt.node.body if isinstance(s_, ast.AnnAssign)}
+    if len(fields) < 15:
+        raise AnalysisError("SolverOptions has fewer fields than expected")
+    n = 0
+    for f in repo.all_functions():
+        if f.module.name.startswith("tdgl.test"):
+            continue
+        env = None
+        for x in own_nodes(f.node):
+            targets = []
+            if isinstance(x, ast.Attribute) and isinstance(x.ctx, (ast.Store, ast.Del)) and x.attr in fields:
+                targets.append((x.value, x.attr, x))
+            if isinstance(x, ast.Call) and getattr(x.func, "id", "") == "setattr" and len(x.args) >= 2:
+                nm = x.args[1].value if isinstance(x.args[1], ast.Constant) else "<dynamic>"
+                targets.append((x.args[0], nm, x))
+            for base, attr, node in targets:
+                if env is None:
+                    env = repo.local_types(f)
+                t = repo.expr_type(f, base, env) or ""
+                is_opt = t.endswith(":SolverOptions") or (f.cls is not None and f.cls.name == "SolverOptions" and norm(base) == "self") \
+                    or "option" in expanded_text(f.node, base).split(".")[-1].lower()
+                if not is_opt:
+                    continue
+                n += 1
+                key = (f.fq, attr)
+                ok = key in OPTION_WRITES_OK
+                ctx.ob(rule, f"{f.qual}: `{norm(base)}.{attr} = ...` ({OPTION_WRITES_OK.get(key, 'NOT in the confirmed table')[:70]})", ok,
+                       where=f.fq, construct=f"options.{attr} rewritten in {f.qual}", loc=loc(f, node),
+                       message=f"{f.qual} overwrites the option `{attr}` of the user's SolverOptions (L{node.lineno}: {norm(node)[:70]})",
+                       consequence=consequence)
+    if n < 1:
+        raise AnalysisError("no write to an options field found: the confirmed instance (validate / sparse_solver) has vanished")
+
+
+LIKE_CTORS = ("full_like", "empty_like", "zeros_like", "ones_like")
+
+
+def no_inherited_dtype_casts(ctx, rule: str, consequence: str, modules: tuple = ()):
+    """A value must never be *cast into* the dtype of an array the user supplied (integer positions are legal input):
+    (a) `np.full_like(proto, value)` without an explicit dtype, proto derived from a parameter;
+    (b) an elementwise store into an `empty_like / zeros_like / ones_like` array whose prototype derives from a parameter
+        and that has no explicit dtype.
+    `value * np.ones_like(x)` is fine: the product is promoted."""
+    repo = ctx.repo
+    through = storage_attrs(repo)
+    n = sites = 0
+    for f in repo.all_functions():
+        if f.module.name.startswith(("tdgl.test", "tdgl.visualization")):
+            continue
+        if modules and not any(f.module.name.startswith(m) for m in modules):
+            continue
+        n += 1
+        calls = [c for c in own_nodes(f.node) if isinstance(c, ast.Call) and norm(c.func).split(".")[-1] in LIKE_CTORS and c.args]
+        if not calls:
+            continue
+        # which names may alias a parameter (user data)?  re-use the alias analysis: a `_like` call is made a root when its
+        # prototype aliases a parameter, so that later elementwise stores into it are reported as writes
+        marks = {}
+
+        def root(e):
+            if isinstance(e, ast.Call) and norm(e.func).split(".")[-1] in LIKE_CTORS and e.args and id(e) in marks:
+                return marks[id(e)]
+            return None
+        pre = analyse(f.node, through_attrs=through)
+        # prototype aliases a parameter?  evaluate with a second pass: collect names aliasing parameters at any point (may-alias)
+        alias_names = set()
+        params = {a.arg for a in f.node.args.args + f.node.args.kwonlyargs + f.node.args.posonlyargs} - {"self", "cls"}
+        alias_names |= params
+        changed = True
+        while changed:
+            changed = False
+            for st in own_nodes(f.node):
+                if isinstance(st, ast.Assign):
+                    v = st.value
+                    base = v
+                    while isinstance(base, (ast.Subscript, ast.Attribute)) or (isinstance(base, ast.Call) and norm(base.func).split(".")[-1] in
+                                                                                ("asarray", "atleast_1d", "atleast_2d", "squeeze", "ravel", "reshape", "copy", "array")):
+                        if isinstance(base, ast.Call):
+                            base = base.args[0] if base.args else (base.func.value if isinstance(base.func, ast.Attribute) else None)
+                            if base is None:
+                                break
+                        else:
+                            base = base.value
+                    if isinstance(base, ast.Name) and base.id in alias_names:
+                        for t in st.targets:
+                            for x in ([t] if isinstance(t, ast.Name) else getattr(t, "elts", [])):
+                                if isinstance(x, ast.Name) and x.id not in alias_names:
+                                    alias_names.add(x.id)
+                                    changed = True
+        for c in calls:
+            kind = norm(c.func).split(".")[-1]
+            proto = c.args[0]
+            pnames = {x.id for x in ast.walk(proto) if isinstance(x, ast.Name)}
+            from_user = bool(pnames & alias_names)
+            has_dtype = any(k.arg == "dtype" for k in c.keywords)
+            if not from_user or has_dtype:
+                continue
+            sites += 1
+            if kind == "full_like":
+                ctx.ob(rule, f"{f.qual}: `{norm(c)[:60]}` casts the fill value into the dtype of user input", False, where=f.fq,
+                       construct=f"full_like on user input in {f.qual}", loc=loc(f, c),
+                       message=f"`{norm(c)[:80]}` creates an array with the dtype of `{norm(proto)}` (user input, possibly integer) and casts "
+                               f"the fill value into it",
+                       consequence=consequence)
+            else:
+                marks[id(c)] = f"{kind}({norm(proto)})"
+        if marks:
+            res = analyse(f.node, roots_params=False, root_expr=root)
+            for node, lab, what in res.writes:
+                ctx.ob(rule, f"{f.qual}: elementwise store into {lab}", False, where=f.fq, construct=f"store into {lab} in {f.qual}",
+                       loc=loc(f, node), message=f"`{norm(node)[:70]}` stores into an array created as {lab}: the value is cast to the dtype of the user's input",
+                       consequence=consequence)
+    ctx.ob(rule, f"{n} functions scanned: no value is cast into a dtype inherited from user input", True, detail={"functions": n, "like_sites_on_user_input": sites},
+           where="package", construct="inherited dtype (package)")
+
+
+COORD_ATTRS = ("probe_points", "points", "_points")
+
+
+def coords_rebound_only(ctx, rule: str, consequence: str):
+    """Coordinate arrays stored on devices / polygons (probe_points, points) keep the dtype the user supplied: they are only ever
+    rebound to freshly computed arrays, never written element by element."""
+    repo = ctx.repo
+
+    # which classes hand out their *stored* array through the attribute (plain attribute, or a property returning self._x)?
+    stored = {}
+    for m in repo.modules.values():
+        for c in m.classes.values():
+            for a in COORD_ATTRS:
+                g = c.methods.get(a)
+                if g is None:
+                    continue
+                # ClassInfo.methods keeps the last definition of a name (the setter): look the getter up in the class body
+                getters = [d for d in c.node.body if isinstance(d, ast.FunctionDef) and d.name == a and any(norm(x) == "property" for x in d.decorator_list)]
+                if getters:
+                    r = analyse(getters[0], roots_params=False, root_expr=_self_root)
+                    stored[(c.name, a)] = bool(r.returns)
+    n = 0
+    for f in repo.all_functions():
+        if not f.module.name.startswith("tdgl.device") and f.module.name not in ("tdgl.geometry",):
+            continue
+        n += 1
+        env = repo.local_types(f)
+
+        def root(e, f=f, env=env):
+            if isinstance(e, ast.Attribute) and e.attr in COORD_ATTRS:
+                t = (repo.expr_type(f, e.value, env) or "").split(":")[-1]
+                if t and stored.get((t, e.attr)) is False:
+                    return None            # a property of that class that computes a fresh array (Device.points)
+                return f"<object>.{e.attr}"
+            return None
+        res = analyse(f.node, roots_params=False, root_expr=root)
+        for node, lab, what in res.writes:
+            ctx.ob(rule, f"{f.qual} writes into {lab}", False, where=f.fq, construct=f"elementwise write into {lab} in {f.qual}", loc=loc(f, node),
+                   message=f"{f.qual} stores into the existing array `{lab}` ({what}) instead of rebinding it to a new array",
+                   consequence=consequence)
+    ctx.ob(rule, f"{n} geometry functions scanned: coordinate attributes are rebound, never written in place", True, where="tdgl.device",
+           construct="coordinate arrays (tdgl.device)")
+    if n < 60:
+        raise AnalysisError(f"only {n} geometry functions scanned")
